@@ -403,7 +403,7 @@ func checkConv(p *Prog, r *Report, pkg, prop string) {
 	ruleCutsetMisuse(p, r, map[string]bool{pkg: true})
 	ruleShortCircuitSkips(p, r, map[string]bool{pkg: true}, newSummarizer(p))
 	if pkg == "linux" {
-		ruleMapComparisonSymmetric(p, r, map[string]bool{pkg: true}, 3)
+		ruleMapComparisonSymmetric(p, r, map[string]bool{pkg: true}, 0)
 	}
 	if pkg == "panos" || pkg == "nsx" {
 		ruleComparatorsComplete(p, r, map[string]bool{pkg: true}, map[string]int{"panos": 6, "nsx": 2}[pkg])
